@@ -278,6 +278,10 @@ pub struct World {
     pub blocked: BTreeSet<(usize, usize)>,
     /// alias address -> (node, source address seen by the receiver for datagrams sent to the alias)
     pub aliases: BTreeMap<SocketAddr, usize>,
+    /// datagrams sent to this alias arrive with the given source address (hair-pin / port-forward paths)
+    pub alias_src: BTreeMap<SocketAddr, SocketAddr>,
+    /// node behind a translating NAT with a port forward: everybody else sees (and reaches) it as this address
+    pub public_addr: BTreeMap<usize, SocketAddr>,
     pub wire: Vec<WireRec>,
     pub frames: Vec<FrameRec>,
     pub dev_writes: Vec<DevWrite>,
@@ -333,6 +337,8 @@ impl World {
             net: NetCfg::default(),
             blocked: BTreeSet::new(),
             aliases: BTreeMap::new(),
+            alias_src: BTreeMap::new(),
+            public_addr: BTreeMap::new(),
             wire: vec![],
             frames: vec![],
             dev_writes: vec![],
@@ -344,7 +350,7 @@ impl World {
             last_fault_ms: 0,
             spare: Box::new(MsgBuffer::new(100)),
             steps: 0,
-            max_steps: 2_000_000,
+            max_steps: 600_000,
             scratch: None,
             aux_rng: Rng::new(rng::mix(seed, 0xa0a0)),
             snap_before: None,
@@ -461,6 +467,18 @@ impl World {
         config.crypto.trusted_keys = c.trusted.iter().map(|t| self.keys[*t].public.clone()).collect();
         config.crypto.algorithms = c.algorithms.clone();
         config
+    }
+
+    /// the address other nodes use to reach node n (its public address behind a translating NAT)
+    pub fn reach_addr(&self, n: usize) -> SocketAddr {
+        self.public_addr.get(&n).copied().unwrap_or(self.nodes[n].addr)
+    }
+
+    /// puts node n behind a translating NAT with a port forward: seen and reached as `public`
+    pub fn set_public_addr(&mut self, n: usize, public: SocketAddr) {
+        let public = mapped_addr(public);
+        self.public_addr.insert(n, public);
+        self.aliases.insert(public, n);
     }
 
     pub fn is_up(&self, n: usize) -> bool {
@@ -757,6 +775,15 @@ impl World {
 
     fn transmit(&mut self, n: usize, src: SocketAddr, dst: SocketAddr, data: Vec<u8>, cause: Cause) -> usize {
         let dst = mapped_addr(dst);
+        // hair-pin: only the node's own datagrams to its alias come back with a rewritten source
+        let src = match self.alias_src.get(&dst) {
+            Some(s) if self.aliases.get(&dst) == Some(&n) => *s,
+            _ => match self.public_addr.get(&n) {
+                // translated source for everything that leaves towards another node
+                Some(p) if self.aliases.get(&dst) != Some(&n) && dst != src => *p,
+                _ => src,
+            },
+        };
         let id = self.wire.len();
         self.hash_in(rng::hash_bytes(&data) ^ (data.len() as u64) << 32 ^ 0xaa);
         let data = Rc::new(data);
@@ -1004,6 +1031,14 @@ impl World {
                         let at = self.nodes[n].stalled_until_ms;
                         self.push_ev(at, EvKind::Deliver { wire });
                         continue;
+                    }
+                    // the internal address of a node behind a translating NAT is not routable from outside
+                    if self.public_addr.contains_key(&n) && dst == self.nodes[n].addr && self.wire[wire].from_node != Some(n) {
+                        self.wire[wire].dropped = Some("internal-address-unreachable");
+                        self.count("internal_address_unreachable");
+                        self.hash_in(0x12 ^ wire as u64);
+                        step.kind = StepKind::Deliver { wire, to: None, accepted: false };
+                        return Some(step);
                     }
                     step.node = Some(n);
                     if self.nodes[n].cfg.nat {
